@@ -45,7 +45,7 @@ class C08(Spec):
                    'nl': rng.choice(['nlbgs', 'newton']) if cpl else 'nlbgs', 'mf': rng.random() < 0.7}
             if cfg['lin'] in ('runonce', 'lbgs'):
                 cfg['jac'] = None
-            if not cpl and cfg['jac'] is None and rng.random() < 0.3:
+            if not cpl and cfg['jac'] is None and rng.random() < 0.4:
                 cfg['approx'] = True      # first-level groups become semi-total finite-difference groups
                 cfg['mf'] = False         # (approx groups with matrix-free components: see props/C01/repro_approx_observations.py)
             scaled = []
@@ -56,8 +56,11 @@ class C08(Spec):
                     pow2 = rng.random() < 0.5
                     route = rng.choice(['sso', 'sso', 'mixed', 'add'])
                     only = rng.choice(['ref0', 'ref0', 'one', None])
+                if cfg.get('approx') and j % 2 == 1:
+                    only = rng.choice(['ref0', 'one'])
                 scaled.append({'pow2': pow2, 'route': route, 'only': only,
-                               'spec': sg.with_scaling(spec, rng, pow2=pow2, route=route, only=only)})
+                               'spec': sg.with_scaling(spec, rng, pow2=pow2, route=route, only=only,
+                                                       prefer_group=bool(cfg.get('approx')))})
             cases.append({'spec': spec, 'cfg': cfg, 'scaled': scaled,
                           'kind': spec_kind(spec) + ':' + cfg['lin'] + (':approx_totals' if cfg.get('approx') else '') + ':' + '/'.join('%s%s' % (v['route'], '-only-' + v['only'] if v['only'] else '') for v in scaled)})
         return cases
@@ -89,4 +92,6 @@ def _after(v, cases, results):
 
 
 def main(tier):
-    return flow.two_group_check(C08(), tier, after_oracle=_after)
+    # the tolerance group holds coupled / iterative / non-power-of-two cases: 1e-7 (solver tolerance, DESIGN C08)
+    from fractions import Fraction
+    return flow.two_group_check(C08(), tier, tol=Fraction(1, 10 ** 7), after_oracle=_after)
